@@ -519,6 +519,52 @@ func (w *Worker) intrinsic(st *State, f *Frame, x ssa.Value, callee *ssa.Functio
 		set(Tuple{mkBV(0, 64), nilUnion()})
 	case "(*strings.Builder).String":
 		set(st.builders[args[0].(Ptr).id])
+	case "strings.Contains":
+		a, b := args[0].(StrV), args[1].(StrV)
+		ca, oka := a.concrete()
+		cb, okb := b.concrete()
+		if oka && okb {
+			set(mkBool(strings.Contains(ca, cb)))
+		} else {
+			set(containsInOrder(a, []Value{b}))
+		}
+	case "strings.HasPrefix", "strings.HasSuffix":
+		a, b := args[0].(StrV), args[1].(StrV)
+		ca, oka := a.concrete()
+		cb, okb := b.concrete()
+		if oka && okb {
+			if full == "strings.HasPrefix" {
+				set(mkBool(strings.HasPrefix(ca, cb)))
+			} else {
+				set(mkBool(strings.HasSuffix(ca, cb)))
+			}
+			break
+		}
+		ha, hb := expand(a), expand(b)
+		if len(hb) > len(ha) {
+			set(mkBool(false))
+			break
+		}
+		off := 0
+		if full == "strings.HasSuffix" {
+			off = len(ha) - len(hb)
+		}
+		conj := []Term{}
+		for i := range hb {
+			conj = append(conj, unitEq(ha[off+i], hb[i]))
+		}
+		set(mkAnd(conj...))
+	case "strings.TrimSuffix", "strings.TrimPrefix":
+		ca, oka := args[0].(StrV).concrete()
+		cb, okb := args[1].(StrV).concrete()
+		if !oka || !okb {
+			panic(engineErr(full + " on symbolic text"))
+		}
+		if full == "strings.TrimSuffix" {
+			set(strLit(strings.TrimSuffix(ca, cb)))
+		} else {
+			set(strLit(strings.TrimPrefix(ca, cb)))
+		}
 	case "strings.TrimSpace":
 		s := args[0].(StrV)
 		if c, ok := s.concrete(); ok {
@@ -671,17 +717,32 @@ func (w *Worker) parseFloat(st *State, set func(Value), s StrV) {
 	declareUF(eName, fmt.Sprintf("(declare-fun %s (%s) Bool)", eName, bv32))
 	failed := app(SBool, eName, rs...)
 	val := app(SFP, vName, rs...)
-	// ground axiom: ASCII digit strings of up to 15 digits never fail and denote their integer value exactly
-	if n <= 15 {
-		allDigits := make([]Term, n)
-		acc := mkBV(0, 64)
-		for i, r := range rs {
-			allDigits[i] = mkAnd(bvCmp("bvuge", r, mkBV('0', 32)), bvCmp("bvule", r, mkBV('9', 32)))
-			d := bvBin("bvsub", bvResize(r, 64, false), mkBV('0', 64), false)
-			acc = bvBin("bvadd", bvBin("bvmul", acc, mkBV(10, 64), false), d, false)
+	// ground axioms (documented strconv facts, instantiated at this application):
+	//  - a string of ASCII digits (up to 15) never fails;
+	//  - for n <= 2 the accepted strings are exactly d, dd, d., .d, +d, -d (values: exact for n = 1,
+	//    left uninterpreted for n = 2: the FP axioms cost minutes of solver time and no check needs them).
+	isD := func(r Term) Term { return mkAnd(bvCmp("bvuge", r, mkBV('0', 32)), bvCmp("bvule", r, mkBV('9', 32))) }
+	dv := func(r Term) Term { return int64ToFP(bvBin("bvsub", bvResize(r, 64, false), mkBV('0', 64), false)) }
+	is := func(r Term, c rune) Term { return mkEq(r, mkBV(uint64(c), 32)) }
+	switch n {
+	case 1:
+		st.assume(mkEq(failed, mkNot(isD(rs[0]))))
+		st.assume(mkImplies(isD(rs[0]), mkEq(val, dv(rs[0]))))
+	case 2:
+		dd := mkAnd(isD(rs[0]), isD(rs[1]))
+		dDot := mkAnd(isD(rs[0]), is(rs[1], '.'))
+		dotD := mkAnd(is(rs[0], '.'), isD(rs[1]))
+		plusD := mkAnd(is(rs[0], '+'), isD(rs[1]))
+		minusD := mkAnd(is(rs[0], '-'), isD(rs[1]))
+		st.assume(mkEq(failed, mkNot(mkOr(dd, dDot, dotD, plusD, minusD))))
+	default:
+		if n <= 15 {
+			all := make([]Term, n)
+			for i, r := range rs {
+				all[i] = isD(r)
+			}
+			st.assume(mkImplies(mkAnd(all...), mkNot(failed)))
 		}
-		ax := mkImplies(mkAnd(allDigits...), mkAnd(mkNot(failed), mkEq(val, int64ToFP(acc))))
-		st.assume(ax)
 	}
 	errU := w.mkErr(st, strLit("strconv.ParseFloat: parsing: invalid syntax or out of range"))
 	errU.Tag = mkIte(failed, errU.Tag, mkBV(KNil, 8))
